@@ -81,7 +81,8 @@ def scenarios(tier: str) -> List[Dict[str, Any]]:
         k += 1
         sc = dict(sc)
         sc.update(charge=ch, adducts=ad, isotope=iso, mono=mono, ion=ion, precision=precision, loss=loss,
-                  charge_in_annotation=in_ann and ch is not None and ch != 0, adducts_in_annotation=in_ann and ad is not None)
+                  charge_in_annotation=in_ann and ch is not None and ch != 0, adducts_in_annotation=in_ann and ad is not None,
+                  as_str=((k // 2) % 3 == 1))      # every third pair of scenarios hands the peptide over as a ProForma string
         out.append(sc)
 
     # (a) unmodified x every charge/adduct configuration x mono/avg
@@ -145,8 +146,10 @@ def _call_library(sc, ann, loss, mass, mz):
         kw["charge"] = sc["charge"]
     if sc["adducts"] and not sc.get("adducts_in_annotation"):
         kw["charge_adducts"] = sc["adducts"]
-    m = mass(ann, precision=sc["precision"], **kw)
-    z = mz(ann, precision=sc["precision"], **kw)
+    # the same peptide object for both calls (or its ProForma string, the form most callers use)
+    arg = ann.serialize() if sc.get("as_str") else ann
+    m = mass(arg, precision=sc["precision"], **kw)
+    z = mz(arg, precision=sc["precision"], **kw)
     return m, z
 
 
@@ -228,7 +231,7 @@ def check_scenario(sc: Dict[str, Any], sym_tables: bool, excl=()) -> Obligation:
 
 
 def scenario_id(sc) -> str:
-    parts = [sc["seq"], "mono" if sc["mono"] else "avg", f"ion={sc['ion']}", f"z={sc['charge']}", f"iso={sc['isotope']}"]
+    parts = [sc["seq"], "mono" if sc["mono"] else "avg", f"ion={sc['ion']}", f"z={sc['charge']}", f"iso={sc['isotope']}"] + (["str"] if sc.get("as_str") else [])
     if sc["adducts"]:
         parts.append("ad=" + sc["adducts"])
     if sc["precision"] is not None:
